@@ -151,7 +151,7 @@ func RunProperty(p *Program, prop, tier string, rules []*Rule, known *KnownFile)
 		if skip := os.Getenv("SQLCHECK_SKIP"); skip != "" && strings.Contains(","+skip+",", ","+r.ID+",") {
 			continue // experiments only: measure what a rule contributes
 		}
-		serves := false
+		serves := prop == "ALL" // measurement mode (tools/mutgen): every rule once
 		for _, pr := range r.Props {
 			if pr == prop {
 				serves = true
@@ -205,7 +205,7 @@ func RunProperty(p *Program, prop, tier string, rules []*Rule, known *KnownFile)
 	knownKeys := map[string]KnownFinding{}
 	if known != nil {
 		for _, k := range known.Findings {
-			if k.Status == "known" && k.Property == prop {
+			if k.Status == "known" && (k.Property == prop || prop == "ALL") {
 				knownKeys[k.Key] = k
 			}
 		}
